@@ -3,7 +3,7 @@ import OptunaVerif.Lemmas.SearchSpace
 # C17: `_SearchSpaceGroup.add_distributions` keeps the groups a canonical partition
 -/
 namespace OptunaVerif.SearchSpace
-open OptunaVerif OptunaVerif.Generated
+open OptunaVerif
 
 /-! ## a closed form of `add_distributions` when the groups are disjoint -/
 
